@@ -548,6 +548,14 @@ class VM:
             init = c.methods.get("%class_init")
             if init is not None:
                 self.call_func(init, [], {}, obj, call_stmt)
+            ib = c.row.get("init") if isinstance(c.row, dict) else None
+            if ib is not None and not (isinstance(ib, float) and ib != ib):
+                # the documented class-initialiser block (TypeScript): field initialisers, run for every new object
+                f = Frame(c.row.get("stmt_id"), "%init")
+                f.root = Scope(c.unit.globals, f)
+                f.cls = c
+                f.this = obj
+                self.exec_block(c.unit, ib, f, f.root, new_scope=False)
         ctor = None
         for nm in ("__init__", "constructor", "__construct", cls.name):
             ctor = cls.find(nm)
@@ -1395,10 +1403,13 @@ class VM:
                 f = Frame(row.get("stmt_id"), "%static_init")
                 f.root = Scope(scope, f)
                 f.cls = cls
+                if self.family == "js":
+                    f.this = cls          # TypeScript: static fields are written as `%this.f = v` in the static_init block
                 self.exec_block(unit, sb, f, f.root, new_scope=False)
         sinit = cls.methods.get("%class_sinit")
         if sinit is not None:
-            self.call_func(sinit, [], {}, UNBOUND, row, cls=cls)
+            # the JavaScript / TypeScript frontends write static fields as `%this.f = v` inside %class_sinit: %this is the class
+            self.call_func(sinit, [], {}, cls if self.family == "js" else UNBOUND, row, cls=cls)
 
     def op_go_type_decl(self, unit, row, frame, scope):
         cls = Class(row, row.get("name"), unit)
